@@ -66,7 +66,7 @@ Definition gproj (p : pid) : pty p -> gobj :=
       if String.eqb f "Entry" then g_bool (negb (entry_is_zero (ce_ent c)))
       else if String.eqb f "ErrorOutput" then g_bool (ce_errout c)
       else if String.eqb f "dirty" then g_bool (ce_dirty c)
-      else if String.eqb f "after" then g_opt (ce_after c)
+      else if String.eqb f "after" then g_some (ce_after c)
       else if String.eqb f "cores" then List.map (fun _ => 0) (ce_cores c)
       else []
   | PErrCore => fun e f => if String.eqb f "err" then g_some (ee_err e) else []
@@ -248,7 +248,11 @@ Proof. vm_compute. reflexivity. Qed.
 
 (* the order of buffer events in the model's code (read off Model.v: core_write, json_encode_entry,
    console_encode_entry, write_context, putJSONEncoder, full_path (both callers), log_call,
-   take_stack) is the order regenerated from the source *)
+   take_stack) is the order regenerated from the source; likewise for the other pooled objects, in
+   the function that holds them from Get to Put (ce_write_with: cores, error output, the hook - handed
+   the entry itself -, then putp PCE; json_encode_entry / write_context: putJSONEncoder last;
+   console_encode_entry: putp PSlice after the columns are printed; err_array_core / err_array_zap:
+   putp after AppendObject; log_call / take_stack: stack_free after the frames are formatted) *)
 Definition model_own_events : list (string * list bev) :=
   [("ioCore.Write", [BUse; BFree]);
    ("jsonEncoder.EncodeEntry", [BUse; BOwnerPut; BRet]);
@@ -258,7 +262,15 @@ Definition model_own_events : list (string * list bev) :=
    ("EntryCaller.FullPath", [BUse; BFree]);
    ("EntryCaller.TrimmedPath", [BUse; BFree]);
    ("Logger.check", [BUse; BFree]);
-   ("stacktrace.Take", [BUse; BFree])].
+   ("stacktrace.Take", [BUse; BFree]);
+   ("CheckedEntry.Write/ce", [BUse; BFree]);
+   ("jsonEncoder.EncodeEntry/final", [BUse; BFree]);
+   ("consoleEncoder.writeContext/context", [BUse; BFree]);
+   ("consoleEncoder.EncodeEntry/arr", [BUse; BFree]);
+   ("zapcore.errArray.MarshalLogArray/el", [BUse; BFree]);
+   ("zap.errArray.MarshalLogArray/elem", [BUse; BFree]);
+   ("Logger.check/stack", [BUse; BFree]);
+   ("stacktrace.Take/stack", [BUse; BFree])].
 Lemma own_facts_match_model : List.map (fun f => (of_fn f, of_events f)) own_facts = model_own_events.
 Proof. vm_compute. reflexivity. Qed.
 
